@@ -155,7 +155,7 @@ Proof.
   assert (E3 : ext s s3) by (unfold s3; destruct (scheduled (whl s2) id); [eapply ext_trans; [exact E2|ext_step]|exact E2]).
   destruct (reason =? reasonREMOVED); cbn [fst].
   - eapply ext_trans; [exact E3|ext_step].
-  - destruct ((reason =? reasonEVICTED) && hyb s3 && negb (f_nvm e) && (Z.of_nat (length (hand s3)) <? 256)); cbn [fst];
+  - destruct ((reason =? reasonEVICTED) && hyb s3 && negb (f_nvm e && negb (f_dirty e)) && (Z.of_nat (length (hand s3)) <? 256)); cbn [fst];
       [eapply ext_trans; [exact E3|ext_step]|].
     destruct (map_get (smap s3) (skey e)) as [id'|]; [|exact E3].
     destruct (id' =? id); cbn [fst]; [eapply ext_trans; [exact E3|ext_step]|exact E3].
@@ -311,7 +311,7 @@ Proof.
   destruct (map_get (smap s) k) as [id|] eqn:Em.
   - destruct (R k id Em) as (e & G & Si & K & V). rewrite G.
     destruct (updateExpire (sexpire e) expire now) as [ex rs].
-    set (f := fun e0 => e_weight (e_val (e_expire e0 ex) v) cost).
+    set (f := fun e0 => e_dirty (e_weight (e_val (e_expire e0 ex) v) cost) (f_dirty e0 || negb nvm)).
     assert (Hf : forall e0, sid (f e0) = sid e0) by (intro; reflexivity).
     cbv beta iota. split; [|split; [|rewrite smap_si; exact D]].
     + intros k' id' H. rewrite smap_si in H. change (smap (upd_ent s id f)) with (smap s) in H.
@@ -332,9 +332,9 @@ Proof.
     split; [|split; [|rewrite smap_si; cbn [smap set_nextid set_smap]; apply NoDup_keys_set, D]].
     + intros k' id' H. rewrite smap_si in H. cbn [smap set_nextid set_smap] in H.
       rewrite get_ent_si.
-      change (get_ent (set_nextid (set_smap (set_ents s (mkE (nextid s) k v cost expire 0 h false false false :: ents s))
+      change (get_ent (set_nextid (set_smap (set_ents s (mkE (nextid s) k v cost expire 0 h false false false false :: ents s))
                                             (map_set (smap s) k (nextid s))) (nextid s + 1)) id') with
-        (find (fun e => sid e =? id') (mkE (nextid s) k v cost expire 0 h false false false :: ents s)).
+        (find (fun e => sid e =? id') (mkE (nextid s) k v cost expire 0 h false false false false :: ents s)).
       destruct (Z.eq_dec k' k) as [->|Hne].
       * rewrite map_get_set_same in H. inversion H. subst id'. cbn [find sid]. rewrite Z.eqb_refl.
         eexists. split; [reflexivity|]. cbn. repeat split; auto. rewrite map_get_set_same. reflexivity.
@@ -526,7 +526,7 @@ Proof.
   assert (E3 : smap s3 = smap s).
   { unfold s3, s2, s1. destruct (scheduled _ _), (tracked _ _); reflexivity. }
   destruct (reason =? reasonREMOVED); cbn [fst]; [exact E3|].
-  destruct ((reason =? reasonEVICTED) && hyb s3 && negb (f_nvm e) && (Z.of_nat (length (hand s3)) <? 256)); cbn [fst]; [exact E3|].
+  destruct ((reason =? reasonEVICTED) && hyb s3 && negb (f_nvm e && negb (f_dirty e)) && (Z.of_nat (length (hand s3)) <? 256)); cbn [fst]; [exact E3|].
   rewrite E3. destruct (map_get (smap s) (skey e)) as [id'|] eqn:Em; [|exact E3].
   destruct (Z.eqb_spec id' id) as [->|N]; [congruence|exact E3].
 Qed.
